@@ -186,11 +186,38 @@ fn delay_answer(rec: Rec) -> std::sync::Arc<dyn Fn(&mut Unimock, u32) + Send + S
 
 fn ordered_mock(recs: &[Rec], rng: &mut Rng, partial: bool) -> (Unimock, usize) {
     use ehm::delay::DelayNsMock;
-    let stages = stages_of(recs, rng);
+    // mixed form: the flush calls are answered by ONE order-independent pattern with exact counts (which never takes
+    // part in the ordered sequence, wherever it is declared); only the writes stay ordered
+    let flushes: Vec<Rec> = recs.iter().filter(|r| matches!(r, Rec::Flush(_))).cloned().collect();
+    let mixed = !flushes.is_empty() && rng.chance(1, 2);
+    let ordered_recs: Vec<Rec> = if mixed {
+        recs.iter().filter(|r| !matches!(r, Rec::Flush(_))).cloned().collect()
+    } else {
+        recs.to_vec()
+    };
+    let stages = stages_of(&ordered_recs, rng);
     let mut c = unimock::verif::DynClause::new();
     let mut patterns = 0;
+    let flush_stages = stages_of(&flushes, rng);
+    // declared before the ordered pattern with this number (0 = first clause of the mock)
+    let mut flush_at = if mixed { Some(rng.below(stages.len() + 1).min(2)) } else { None };
+    let mut push_flush = |c: &mut unimock::verif::DynClause<'static>| {
+        let mut q = WriteMock::flush.each_call(matching!()).answers_arc(flush_answer(flush_stages[0].0.clone()));
+        for k in 0..flush_stages.len() {
+            let qr = q.n_times(flush_stages[k].1);
+            if k + 1 == flush_stages.len() {
+                c.push(qr);
+                break;
+            }
+            q = qr.then().answers_arc(flush_answer(flush_stages[k + 1].0.clone()));
+        }
+    };
     let mut i = 0;
     while i < stages.len() {
+        if flush_at == Some(patterns) {
+            push_flush(&mut c);
+            flush_at = None;
+        }
         let mut j = i + 1;
         while j < stages.len() && same_method(&stages[i].0, &stages[j].0) && rng.chance(1, 2) {
             j += 1;
@@ -233,7 +260,62 @@ fn ordered_mock(recs: &[Rec], rng: &mut Rng, partial: bool) -> (Unimock, usize) 
         }
         i = j;
     }
+    if flush_at.is_some() {
+        push_flush(&mut c);
+    }
     (mk(partial, c), patterns)
+}
+
+/// The script as order-independent series with an open tail: the first required call is answered by a `once()`
+/// stage, every later one by the unquantified stage after `then()` (which replays the remaining outcomes).
+/// Returns the mock and whether its expectations will be met by `n` calls (a trailing `then()` demands one more
+/// call than the counted stages; a mentioned method must be called at all).
+fn series_mock(recs: &[Rec], partial: bool) -> (Unimock, bool) {
+    let writes: Vec<Rec> = recs.iter().filter(|r| matches!(r, Rec::Write(_))).cloned().collect();
+    let flushes: Vec<Rec> = recs.iter().filter(|r| matches!(r, Rec::Flush(_))).cloned().collect();
+    let mut c = unimock::verif::DynClause::new();
+    let mut met = true;
+    if !writes.is_empty() {
+        met &= writes.len() >= 2;
+        let rest: Vec<Rec> = writes[1..].to_vec();
+        let cursor = std::sync::atomic::AtomicUsize::new(0);
+        let tail: std::sync::Arc<dyn Fn(&mut Unimock, &[u8]) -> io::Result<usize> + Send + Sync> =
+            std::sync::Arc::new(move |_: &mut Unimock, buf: &[u8]| {
+                log(format!("write({buf:?})"));
+                let k = cursor.fetch_add(1, std::sync::atomic::Ordering::SeqCst);
+                match rest.get(k) {
+                    Some(Rec::Write(Ok(n))) => {
+                        st().sink.extend_from_slice(&buf[..(*n).min(buf.len())]);
+                        Ok(*n)
+                    }
+                    Some(Rec::Write(Err(kind))) => Err(io::Error::new(*kind, "scripted failure")),
+                    _ => Err(io::Error::new(io::ErrorKind::Other, "script exhausted")),
+                }
+            });
+        c.push(
+            WriteMock::write
+                .each_call(matching!(_))
+                .answers_arc(write_answer(writes[0].clone()))
+                .once()
+                .then()
+                .answers_arc(tail),
+        );
+    }
+    if !flushes.is_empty() {
+        let all = flushes.clone();
+        let cursor = std::sync::atomic::AtomicUsize::new(0);
+        let f: std::sync::Arc<dyn Fn(&mut Unimock) -> io::Result<()> + Send + Sync> =
+            std::sync::Arc::new(move |_: &mut Unimock| {
+                log("flush()".into());
+                let k = cursor.fetch_add(1, std::sync::atomic::Ordering::SeqCst);
+                match all.get(k) {
+                    Some(Rec::Flush(Err(kind))) => Err(io::Error::new(*kind, "scripted failure")),
+                    _ => Ok(()),
+                }
+            });
+        c.push(WriteMock::flush.each_call(matching!()).answers_arc(f));
+    }
+    (mk(partial, c), met)
 }
 
 struct PlainWriter;
@@ -278,6 +360,30 @@ fn finish(u: Unimock, out: &mut Vec<String>) {
             .or(p.downcast_ref::<&str>().map(|s| s.to_string()))
             .unwrap_or_default();
         out.push(format!("report() panicked: {msg}"));
+    }
+}
+
+/// Like `finish`, for mocks whose verdict is known: `report()` must map it to its exit code.
+fn finish_expect(u: Unimock, success: bool, out: &mut Vec<String>) {
+    let r = std::panic::catch_unwind(std::panic::AssertUnwindSafe(move || std::process::Termination::report(u)));
+    match r {
+        Ok(code) => {
+            let want = if success { std::process::ExitCode::SUCCESS } else { std::process::ExitCode::FAILURE };
+            if format!("{code:?}") != format!("{want:?}") {
+                out.push(format!(
+                    "report() returned {code:?} although the scripted expectations were {}",
+                    if success { "all met" } else { "not met" }
+                ));
+            }
+        }
+        Err(p) => {
+            let msg = p
+                .downcast_ref::<String>()
+                .cloned()
+                .or(p.downcast_ref::<&str>().map(|s| s.to_string()))
+                .unwrap_or_default();
+            out.push(format!("report() panicked: {msg}"));
+        }
     }
 }
 
@@ -1321,6 +1427,7 @@ const COVERED: &[(&str, &[&str])] = &[
     ("supertrait", &["Display::fmt", "Debug::fmt"]),
     ("write-ordered", &["Write::write", "Write::flush", "Write::write_all"]),
     ("delay-ordered", &["DelayNs::delay_ns", "DelayNs::delay_us", "DelayNs::delay_ms"]),
+    ("write-series", &["Write::write", "Write::flush", "Write::write_all"]),
     ("hal", &["DelayNs::delay_ns", "DelayNs::delay_us", "DelayNs::delay_ms", "InputPin::is_high", "InputPin::is_low",
               "OutputPin::set_low", "OutputPin::set_high", "OutputPin::set_state", "StatefulOutputPin::is_set_high",
               "StatefulOutputPin::is_set_low", "StatefulOutputPin::toggle"]),
@@ -1449,7 +1556,25 @@ fn run_family(family: &str, use_mock: bool, partial: bool, seed: u64) -> Run {
                 reset(script, data);
                 let (mut u, _patterns) = ordered_mock(&recs, &mut rng, partial);
                 let mut out = drive_write(&mut u, &mut drive_rng, &payload);
-                finish(u, &mut out);
+                finish_expect(u, true, &mut out);
+                out
+            } else {
+                drive_write(&mut PlainWriter, &mut drive_rng, &payload)
+            }
+        }
+        "write-series" => {
+            if use_mock {
+                let mut plain_rng = Rng::new(seed ^ 0xD21E);
+                drive_write(&mut PlainWriter, &mut plain_rng, &payload);
+                let recs = st().recs.clone();
+                let (script, data) = {
+                    let s = st();
+                    (s.script.clone(), s.data.clone())
+                };
+                reset(script, data);
+                let (mut u, met) = series_mock(&recs, partial);
+                let mut out = drive_write(&mut u, &mut drive_rng, &payload);
+                finish_expect(u, met, &mut out);
                 out
             } else {
                 drive_write(&mut PlainWriter, &mut drive_rng, &payload)
@@ -1463,7 +1588,7 @@ fn run_family(family: &str, use_mock: bool, partial: bool, seed: u64) -> Run {
                 reset(vec![], vec![]);
                 let (mut u, _patterns) = ordered_mock(&recs, &mut rng, partial);
                 let mut out = drive_delay(&mut u, &mut drive_rng);
-                finish(u, &mut out);
+                finish_expect(u, true, &mut out);
                 out
             } else {
                 drive_delay(&mut PlainHal { high: false }, &mut drive_rng)
